@@ -16,6 +16,12 @@ func main() {
 		os.Exit(2)
 	}
 	switch os.Args[1] {
+	case "replay":
+		if len(os.Args) < 3 {
+			fmt.Fprintln(os.Stderr, "usage: govc replay <replay-file>")
+			os.Exit(2)
+		}
+		os.Exit(runReplayFile(os.Args[2]))
 	case "check":
 		if len(os.Args) < 3 {
 			fmt.Fprintln(os.Stderr, "usage: govc check <id> [quick|thorough]")
